@@ -160,6 +160,18 @@ def run(ctx):
             conns.append(c)
         kw = [False] + [ctx.rng.random() < 0.25 for _ in range(k - 1)]
         rnd += mk_cases("r%d" % n, nums_, conns, kw, ctx.rng, "random")
+    # long lists: 9..18 written numbers, mostly after one keyword only (nothing in the statement caps the length)
+    for n in range(1500 if thorough else 250):
+        k = ctx.rng.randint(9, 18)
+        nums_ = [ctx.rng.randint(1, 60) for _ in range(k)]
+        conns = []
+        for j in range(k - 1):
+            c = ctx.rng.choice(["AND", "AND", "AND", "THRU"])
+            if c == "THRU" and abs(nums_[j] - nums_[j + 1]) > 6:
+                nums_[j + 1] = max(1, min(60, nums_[j] + ctx.rng.randint(-3, 4)))
+            conns.append(c)
+        kw = [False] + [ctx.rng.random() < 0.05 for _ in range(k - 1)]
+        rnd += mk_cases("w%d" % n, nums_, conns, kw, ctx.rng, "long list")
     # long ranges (a township has 36 sections, but nothing in the statement caps a list)
     for n in range(300 if thorough else 60):
         a = ctx.rng.randint(1, 50)
@@ -181,7 +193,7 @@ def run(ctx):
         rnd += rnd2
     check(ctx, rnd)
     ctx.rule = ("abstract lists (numbers, AND/THRU connectives, repeated-keyword flags) = all terminal states of "
-                "spec/ElidedList.tla up to %d numbers over 1..4 (exhaustive) + seeded random lists of 2..8 numbers; "
+                "spec/ElidedList.tla up to %d numbers over 1..4 (exhaustive) + seeded random lists of 2..8 and of 9..18 numbers; "
                 "each rendered (random connective/keyword spelling, random shift) for find_sec, PLSSDesc and Tract "
                 "lots; non-trivial = distinct (channel, list) with >= 2 numbers" % emit_k)
     ctx.assumptions += ["spelling tables THRU/AND/SEC_WORDS/LOT_WORDS in harness/drivers/c05.py (DESIGN Appendix A)",
